@@ -427,6 +427,13 @@ class C15:
                 if ok:
                     fails.append(Failure(group, "integrity-field", "%s stream with byte %d altered to %02x is accepted" % (kind, m.meta["pos"], m.meta["v"]), [i]))
             elif m.role == "bitflip":
+                e2h = bytearray(enc[:2])
+                if m.meta["bit"] < 16:
+                    e2h[m.meta["bit"] // 8] ^= 1 << (m.meta["bit"] % 8)
+                if kind == "zlib" and m.meta["bit"] < 16 and not raw_ambiguous(bytes(e2h)):
+                    # the flip destroys the zlib header: what remains is, for the `deflate` coding, a candidate bare
+                    # deflate stream, which stores no checksum to contradict (side condition of repair F6, DESIGN.md §7)
+                    continue
                 if ok and result != data:
                     # allowed only if the content genuinely matches the checks stored in the (damaged) stream
                     e2 = bytearray(enc)
